@@ -32,7 +32,9 @@ def all_matchings(n):
 def seq_for(n, rng=None):
     if rng is None:
         return ("ACGU" * (n // 4 + 1))[:n]
-    return "".join(rng.choice("ACGU") for _ in range(n))
+    # mostly the four standard letters; now and then what real BPSEQ files also carry: lower-case letters
+    # (modified residues), N and T
+    return "".join(rng.choice("ACGU" * 8 + "acguNT") for _ in range(n))
 
 
 def exhaustive(nmax, nmin=1):
@@ -120,6 +122,28 @@ def ladder(k, stemlen=1, gap=0):
             pairs[i] = j + 1
             pairs[j] = i + 1
     return (seq_for(n), pairs)
+
+
+def clique(lengths, gap=1, rng=None):
+    """len(lengths) mutually crossing stems of the given lengths (opening blocks in order, then closing blocks in the
+    same order); returns ((seq, pairs), lengths in 5'->3' order of the stems)"""
+    k = len(lengths)
+    opens, pos = [], 0
+    for L in lengths:
+        opens.append(pos)
+        pos += L + gap
+    closes = []
+    for L in lengths:
+        closes.append(pos)
+        pos += L + gap
+    pairs = [0] * pos
+    for s, L in enumerate(lengths):
+        for t in range(L):
+            i = opens[s] + t
+            j = closes[s] + L - 1 - t
+            pairs[i] = j + 1
+            pairs[j] = i + 1
+    return (seq_for(pos, rng), pairs)
 
 
 def from_dbn(structure, seq=None):
